@@ -186,7 +186,21 @@ def c10(cx):
              "Random driver: 12 limits, lengths around them, pipelining.")
 
 
-PROPS = {"C10": c10, "C19": c19, "C12": c12, "C01": c01, "C13": c13, "C05": c05, "C06": c06, "C07": c07, "C08": c08, "C17": c17}
+def c20(cx):
+    return conn_family(
+        cx, "MC_C20", "C20", 2000, 50000,
+        consts_thorough={"MaxToks": 4},
+        rule="ParseParameters is transcribed into TLA+ (PgOps.CountParams) and TLC enumerates every query of up to MaxToks "
+             "tokens over text, '?' and '$n' with n in {0,1,2,3,5,65535} or beyond the 65535 limit (up to > 2^64), "
+             "checking the counting rules on the operator; each query is rendered with random filler text, the real "
+             "ParseParameters is called directly (a panic kills the harness process and is reported) and - for purely "
+             "$n-style-within-limit or purely ?-style queries - a statement using it is parsed and described through the "
+             "real server; TLC validates the returned length and zero types, and the ParameterDescription count. Random "
+             "driver: up to 40 tokens, indexes to 65535 and beyond.",
+        max_replay_quick=None)
+
+
+PROPS = {"C20": c20, "C10": c10, "C19": c19, "C12": c12, "C01": c01, "C13": c13, "C05": c05, "C06": c06, "C07": c07, "C08": c08, "C17": c17}
 
 
 def replay(cx, path):
